@@ -33,8 +33,11 @@ def run_tlc(spec, cfg, env=None, workdir=None, workers=1, extra=(), timeout=3600
             f.write(cfg)
         e = dict(os.environ)
         e.update(env or {})
-        cmd = [tlc_cmd(), '-workers', str(workers), '-metadir', os.path.join(tmp, 'meta'),
-               '-noGenerateSpecTE', '-config', spec + '.cfg'] + list(extra) + [spec + '.tla']
+        # the stock `tlc` wrapper starts a ParallelGC / tiered-JIT JVM (about 6 CPU-seconds per start on 16 cores);
+        # the many short runs made here are 4x cheaper with the serial collector and the C1 compiler only
+        jopts = os.environ.get('VERIF_JAVA_OPTS', '-XX:+UseSerialGC -XX:TieredStopAtLevel=1 -Xss32m').split()
+        cmd = ['java'] + jopts + ['-cp', JAR + ':' + CM, 'tlc2.TLC', '-workers', str(workers),
+               '-metadir', os.path.join(tmp, 'meta'), '-noGenerateSpecTE', '-config', spec + '.cfg'] + list(extra) + [spec + '.tla']
         t0 = time.time()
         p = subprocess.run(cmd, cwd=tmp, env=e, capture_output=True, text=True, timeout=timeout)
         out = p.stdout + p.stderr
